@@ -20,7 +20,7 @@ ASSUMPTIONS = ['floats limited to values whose single-precision rounding is '
 def shards(tier, seed):
     n = 16
     out = [{'name': 's%d' % i, 'i': i, 'n': n,
-             'n_random': 1200 if tier == 'quick' else 30000,
+             'n_random': 1200 if tier == 'quick' else 200000,
              'grid': tier != 'quick'} for i in range(n)]
     return common.with_configs(out, common.ALL_CONFIGS, take=1)
 
